@@ -7,24 +7,23 @@ From SV Require Import Proof.ReplaceMergedSorted Proof.PeaksNoCut.
 From SV Require Import Model.PeakProps Spec.PeakPropsSpec Proof.PeakPropsProof.
 From SV Require Import Model.Splitting Proof.SplittingProof.
 From SV Require Import Model.SumWaveform Proof.SumWaveformProof.
+From SV Require Import Model.HDR Proof.HDRProof.
 
 (* ------------------------------------------------------------------------------------------ *)
-(* symmetric_moving_average (repaired code, `just_out >= 0`) equals the defining windowed mean:
+(* symmetric_moving_average (repaired code: `just_out >= 0`, /repo 0edf9fa; `count = min(wing_width,
+   n)`, /repo 19272a6) equals the defining windowed mean:
    out[i] = (sum of a[max(0,i-w) .. min(n,i+w+1))) / (number of those samples), as an exact
-   fraction, for every array and every wing width 0 <= w <= len(a). *)
-Definition C19_full_moving_average_is_definition : Prop :=
-  forall a w, 0 <= w -> sma a w = sma_spec a w.
-
-Theorem C19_moving_average_is_definition_partial : forall a w,
-  0 <= w <= zlen a -> sma a w = sma_spec a w.
+   fraction, for every array and every wing width w >= 0. *)
+Theorem C19_moving_average_is_definition : forall a w, 0 <= w -> sma a w = sma_spec a w.
 Proof. exact sma_is_windowed_mean. Qed.
-Print Assumptions C19_moving_average_is_definition_partial.
+Print Assumptions C19_moving_average_is_definition.
 
-(* wing widths larger than the array: count starts at wing_width although only n samples were
-   summed; the result is sum/wing_width instead of the mean. *)
-Theorem C19_moving_average_is_definition_refuted : exists a w, 0 <= w /\ sma a w <> sma_spec a w.
-Proof. exact sma_wide_wing_refuted. Qed.
-Print Assumptions C19_moving_average_is_definition_refuted.
+(* documentation of the pinned tree: with `count = wing_width` wing widths larger than the array
+   gave sum/wing_width instead of the mean (sma_pinned = the model of that code). *)
+Theorem C19_moving_average_is_definition_pinned_refuted :
+  exists a w, 0 <= w /\ sma_pinned a w <> sma_spec a w.
+Proof. exact sma_pinned_wide_wing_refuted. Qed.
+Print Assumptions C19_moving_average_is_definition_pinned_refuted.
 
 (* ------------------------------------------------------------------------------------------ *)
 (* find_peaks: whenever the assertions in front of the loop hold and the run succeeds, the output
@@ -174,17 +173,38 @@ Theorem C19_local_minimum_split_tiles_parent : forall t dt area min_area odt w m
 Proof. exact local_minimum_split_tiles. Qed.
 Print Assumptions C19_local_minimum_split_tiles_parent.
 
-(* the full statement "every splitter's children tile the parent" is false for the natural-breaks
-   splitter, whose closing split point is len(w) - 1: such split points tile only up to the
-   parent's end minus one sample (witness: children of [100,116) end at 114). *)
-Definition C19_full_split_tiles_parent_any_splitter : Prop :=
-  forall t dt area min_area odt n splits cs,
-    0 < odt -> 0 < dt -> (odt | dt) -> min_area <= area -> splits <> [] -> increasing 0 splits ->
-    split_peak t dt area min_area odt splits = Ok (true, cs) -> tiled t cs (t + n * dt).
-Theorem C19_split_tiles_parent_short_closing_point_refuted : exists cs,
+(* NaturalBreaksSplitter (repaired, /repo 8263a29: the closing split point is len(w)): whatever
+   interior index its goodness of split selects (the floats are not modelled: max_i is an input),
+   the two children tile the parent exactly.  So both splitters tile the parent. *)
+Theorem C19_natural_breaks_split_tiles_parent : forall t dt area min_area odt w max_i,
+  0 < odt -> 0 < dt -> (odt | dt) -> min_area <= area -> 0 < max_i < zlen w ->
+  exists cs, split_peak_natural_breaks t dt area min_area odt w max_i true = Ok (true, cs) /\
+             tiled t cs (t + zlen w * dt) /\ Forall (fun c => cdt c = odt) cs /\ length cs = 2%nat.
+Proof. exact natural_breaks_split_tiles. Qed.
+Print Assumptions C19_natural_breaks_split_tiles_parent.
+
+(* documentation of the pinned tree: the closing split point len(w) - 1 tiled only up to the
+   parent's end minus one sample (children of [100,116) ended at 114). *)
+Theorem C19_split_tiles_parent_pinned_refuted : exists cs,
   split_peak 100 2 12 0 1 [2; 7] = Ok (true, cs) /\ tiled 100 cs 114 /\ ~ tiled 100 cs 116.
 Proof. exact split_short_of_end. Qed.
-Print Assumptions C19_split_tiles_parent_short_closing_point_refuted.
+Print Assumptions C19_split_tiles_parent_pinned_refuted.
+
+(* ------------------------------------------------------------------------------------------ *)
+(* highest_density_region (repaired, /repo 1da565c: `len(gaps) >= _buffer_size`): every returned
+   interval list fits the result buffer; otherwise the -1 marker (None) is returned.  All other
+   facts about HDR rest on correspondence only. *)
+Theorem C19_hdr_intervals_fit_buffer : forall data fs upper bs outs,
+  highest_density_region data fs upper bs = Ok outs -> Forall (fits bs) outs.
+Proof. exact hdr_intervals_fit_buffer. Qed.
+Print Assumptions C19_hdr_intervals_fit_buffer.
+
+(* documentation of the pinned tree: the test `len(gaps) > _buffer_size` let 3 intervals through
+   for a buffer of 2 *)
+Theorem C19_hdr_intervals_fit_buffer_pinned_refuted :
+  exists ivs bs, (zlen ivs - 1 >? bs) = false /\ ivs = runs (sort_z [4; 2; 0]) /\ ~ zlen ivs <= Z.max 1 bs.
+Proof. exact hdr_pinned_buffer_test_refuted. Qed.
+Print Assumptions C19_hdr_intervals_fit_buffer_pinned_refuted.
 
 (* ------------------------------------------------------------------------------------------ *)
 (* sum_waveform.  Full statement: every processed peak has area = sum over channels, and its stored
